@@ -7,7 +7,7 @@ import vlib
 
 PID = "C15"
 FILES = ["theories/Properties/C15.v", "theories/Examples/C15Examples.v", "theories/Examples/C15Paging.v",
-         "theories/Examples/C15Wirings.v", "theories/Examples/C15Family.v"]
+         "theories/Examples/C15Wirings.v", "theories/Examples/C15Family.v", "theories/Examples/C15Links.v"]
 
 
 def families(sch):
@@ -20,14 +20,39 @@ def families(sch):
     return fam
 
 
+def link_sets(sch, fam):
+    """the two sides of every link collection that touches a family: {(root store keeping the set, set field): root store of
+    the ids it lists} - the collections declared on a family's PARENT store, seen from both ends"""
+    out = {}
+    for s in sch.order:
+        for local, other, _ in sch.stores[s]["links"]:
+            if sch.root(s) in fam or sch.root(other) in fam:
+                out[(sch.root(s), local)] = sch.root(other)
+    return out
+
+
+def peer_mentions(sch, fam, facts, r, i):
+    """the facts S:<store>:<entity>:<link set>:<i> - id i of family root r listed on the other side of a link collection"""
+    ls = link_sets(sch, fam)
+    out = []
+    for f in facts:
+        q = f.split(":")
+        if q[0] == "S" and q[4] == i and ls.get((q[1], q[3])) == r and not (q[1] == r and q[2] == i):
+            out.append(f)
+    return out
+
+
 def fam_facts(sch, tx):
     fam = families(sch)
+    ls = link_sets(sch, fam)
     out = []
     for f in tx["facts"]:
         p = f.split(":")
         if p[0] in ("E", "C", "CF", "F", "U", "X", "XK", "JUNK") and (p[0] == "JUNK" or p[1] in fam):
             out.append(f)
         elif p[0] == "S" and p[1] in fam and p[3] in sch.stores[p[1]]["sets"]:
+            out.append(f)
+        elif p[0] == "S" and (p[1], p[3]) in ls:   # both sides of the link collections of the families
             out.append(f)
     return tuple(out)
 
@@ -45,6 +70,8 @@ def fam_reads(sch, tx):
         elif p[0] in ("LF", "QP"):     # QP: paged / sorted / counted queries - count and ORDERED page, verbatim
             out.append(t)
         elif p[0] in ("LK", "LKD", "RE"):   # every lookup variant of the store API (store_c15w6.go), verbatim
+            out.append(t)
+        elif p[0] == "QC":   # QueryWithCursorC over every cursor provider (store_c15w7.go): count, ordered page, candidates
             out.append(t)
     return tuple(sorted(out))
 
@@ -184,6 +211,125 @@ def qp_oracle(sch, fam, ents, child, fv, cfv, other):
                         % (q(), len(got), got, n_want, len(want), want,
                            "rows lost: rows the store does not show took part in the limit" if len(got) < n_want
                            else "rows the store does not show took part in the skip")))
+    return out
+
+
+QC_STATS = dict(queries=0, through_plain_child=0, candidates_without_child_data=0, through_extended_child=0, through_parent=0,
+                set_index_cursor=0, related_entities_cursor=0, tree_set_cursor=0, id_order_scanner=0, sorting_scanner=0)
+QC_PROV = dict(si="IteratorMatchingAllOf(set index %s of the parent, 1 value)", sa="IteratorMatchingAllOf(set index %s of the parent, 2 values)",
+               so="IteratorMatchingAnyOf(set index %s of the parent, 2 values)", rl="GetRelatedEntitiesCursor(%s)", ts="ast.TreeSet of ids (%s)")
+
+
+def qc_oracle(sch, fam, ents, child, fv, cfv, other):
+    """QueryWithCursorC through a store of a family over a caller-supplied cursor (tokens
+    QC:<store>:<provider>:<filter>:<sort>:<dir>:<skip>:<limit>:<count>:<ids>:<candidates>): whatever cursor produced the
+    candidates, a plain child store returns and counts only candidates WITH child data that satisfy the filter, an extended
+    child store and the parent every candidate that satisfies it; the page holds only such ids, each once, and exactly
+    min(limit, total - skip) of them.  The order is compared with the machine's.  -> list of (key, description)"""
+    out = []
+    seen = set()
+    stores = {}
+    for r, cs in fam.items():
+        stores[r] = (r, "parent")
+        for c in cs:
+            stores[c] = (r, "extended" if sch.stores[c]["ext"] else "plain")
+    for t in sorted(x for x in other if x.startswith("QC:")):
+        p = t.split(":")
+        if len(p) != 11 or p[1] not in stores:
+            continue
+        s, prov, flt, srt, skip, limit, count, ids, cands = p[1], p[2], p[3], p[4], int(p[6]), p[7], p[8], p[9], p[10]
+        r, kind = stores[s]
+        if count == "ERR":
+            continue
+        own = set(f for f, _ in sch.stores[s]["fields"]) if kind != "parent" else set()
+
+        def val(i, f):
+            raw = cfv.get((r, i, s, f), "absent") if f in own else fv.get((r, i, f), "absent")
+            return unhex(raw[1:]) if raw.startswith("s") else None
+
+        cl = [x for x in cands.split(",") if x]
+        if flt == "T":
+            match = lambda i: True
+        else:
+            _, ff, hv = flt.split("=")
+            match = lambda i, ff=ff, want_v=unhex(hv): val(i, ff) == want_v
+        shown = [i for i in cl if kind != "plain" or (r, i, s) in child]
+        want = [i for i in shown if match(i)]
+        cands_matching = [i for i in cl if match(i)]
+        got = [x for x in ids.split(",") if x]
+        QC_STATS["queries"] += 1
+        QC_STATS["through_parent" if kind == "parent" else "through_%s_child" % kind] += 1
+        QC_STATS[dict(si="set_index_cursor", sa="set_index_cursor", so="set_index_cursor", rl="related_entities_cursor",
+                      ts="tree_set_cursor")[prov[:2]]] += 1
+        QC_STATS["id_order_scanner" if srt == "-" else "sorting_scanner"] += 1
+        if kind == "plain" and len(shown) < len(cl):
+            QC_STATS["candidates_without_child_data"] += 1
+        q = lambda: "QueryWithCursorC(%s%s%s%s) over %s through %s store %s" % (
+            "true" if flt == "T" else "%s = 0x%s" % (flt.split("=")[1], flt.split("=")[2]),
+            "" if srt == "-" else " sort by %s" % srt, " skip %d" % skip if skip else "", "" if limit == "n" else " limit " + limit,
+            QC_PROV[prov[:2]] % prov[3:], kind, s)
+        tag = "parent" if kind == "parent" else "child"
+        if int(count) != len(want):
+            key = "C15:%s-cursor-query-count%s" % (tag, "" if kind == "parent" else "-" + kind)
+            if key not in seen:
+                seen.add(key)
+                extra = ""
+                if kind == "plain" and int(count) == len(cands_matching):
+                    extra = (" - that is the number of matching CANDIDATES %s: parent entities without data of %s are counted (the "
+                             "child-store test does not apply to rows of a supplied cursor)" % (cands_matching, s))
+                out.append((key, "%s (candidates %s) reports a total of %s; the candidates the store shows that satisfy the filter are %s (%d)%s"
+                            % (q(), cl, count, want, len(want), extra)))
+        key = "C15:%s-cursor-query-page%s" % (tag, "" if kind == "parent" else "-" + kind)
+        if key in seen:
+            continue
+        stray = [i for i in got if i not in want]
+        n_want = max(0, len(want) - skip)
+        if limit != "n":
+            n_want = min(n_want, int(limit))
+        if stray:
+            seen.add(key)
+            out.append((key, "%s (candidates %s) returns %s: %s %s" % (
+                q(), cl, got, stray, "have no data of the child store / do not satisfy the filter / are no candidates" if kind == "plain"
+                else "are not candidates satisfying the filter")))
+        elif len(set(got)) != len(got):
+            seen.add(key)
+            out.append((key, "%s returns an id twice: %s" % (q(), got)))
+        elif len(got) != n_want:
+            seen.add(key)
+            out.append((key, "%s (candidates %s) returns %d row(s) %s; %d of the %d candidates it shows that satisfy the filter %s belong on this page"
+                        % (q(), cl, len(got), got, n_want, len(want), want)))
+    return out
+
+
+LINK_STATS = dict(states_with_links_on_child_entities=0, deletes_of_linked_child_entities=0, through_parent=0, through_child=0)
+
+
+def link_oracle(sch, fam, ents, child, sets):
+    """link collections that touch a family (declared on its PARENT store) are facts of the parent part: every member of a link
+    set is an existing entity of the other store, and the other side lists the owner - for plain parent entities and for
+    entities with child data alike.  -> list of problems"""
+    out = []
+    sides = {}
+    for s in sch.order:
+        for local, other, ofield in sch.stores[s]["links"]:
+            if sch.root(s) in fam or sch.root(other) in fam:
+                sides[(sch.root(s), local)] = (sch.root(other), ofield, s)
+    linked_child = False
+    for (rs, i, lf), members in sorted(sets.items()):
+        if (rs, lf) not in sides:
+            continue
+        ro, ofield, decl = sides[(rs, lf)]
+        if rs in fam and any((rs, i, c) in child for c in fam[rs]) and members:
+            linked_child = True
+        for m in sorted(members):
+            if i not in ents.get(rs, ()):
+                out.append("link set %s.%s of %s, which is no entity, lists %s" % (decl, lf, i, m))
+            elif m not in ents.get(ro, ()):
+                out.append("link set %s.%s of %s lists %s, which is no entity of %s (a deleted entity is still mentioned on the other "
+                           "side of the link collection)" % (decl, lf, i, m, ro))
+            elif i not in sets.get((ro, m, ofield), set()):
+                out.append("link set %s.%s of %s lists %s, but %s.%s of %s does not list %s" % (decl, lf, i, m, ro, ofield, m, i))
+    LINK_STATS["states_with_links_on_child_entities"] += linked_child
     return out
 
 
@@ -387,6 +533,7 @@ def dw_oracle(sch, fam, ops, committed, prev, cur):
         left = []
         for i in want:
             rest = [x for x in cur_facts if x.split(":")[0] in ("E", "C", "CF", "F", "S") and x.split(":")[1] == r and x.split(":")[2] == i]
+            rest += peer_mentions(sch, fam, cur_facts, r, i)   # the other side of a link collection of the parent store
             if rest:
                 left.append((i, rest[:3]))
         if left:
@@ -463,6 +610,9 @@ def oracle(sch, txs, io, mo):
         # ---- paged / sorted / counted queries through every store of the family (every state)
         for key, desc in qp_oracle(sch, fam, ents, child, fv, cfv, a["other"]):
             out.append((key, desc, k))
+        # ---- QueryWithCursorC over every cursor provider through every store of the family (every state)
+        for key, desc in qc_oracle(sch, fam, ents, child, fv, cfv, a["other"]):
+            out.append((key, desc, k))
         # ---- every lookup variant through every store of the family agrees with the entities and with the others (every state)
         for key, desc in lookup_oracle(sch, fam, ents, child, sets, a["other"]):
             out.append((key, desc, k))
@@ -512,6 +662,12 @@ def oracle(sch, txs, io, mo):
                                             o.get("store", ""), o.get("id", "") if o["kind"] != "DW" else
                                             ("true" if o["field"] is None else "%s = 0x%s" % (o["field"], o["val"])))
                               for o in ops), "; ".join(fkp[:3])), k))
+            # ... and the link collections the PARENT store declares: both sides agree, no member without an entity
+            lkp = link_oracle(sch, fam, ents, child, sets)
+            if lkp:
+                out.append(("C15:parent-links", "after the committed transaction [%s]: %s" % (
+                    ", ".join("%s %s %s" % (dict(C="Create", UP="Update", D="DeleteById", DW="DeleteWhere", AL="AddLinks", RL="RemoveLinks").get(o["kind"], o["kind"]),
+                                            o.get("store", ""), o.get("id", "") if o["kind"] != "DW" else "...") for o in ops), "; ".join(lkp[:3])), k))
             pents, pchild = prev_view[0], prev_view[1]
             for j, op in enumerate(ops):
                 if op["kind"] not in ("C", "UP", "D"):
@@ -540,6 +696,14 @@ def oracle(sch, txs, io, mo):
                             if q[0] in ("U", "X") and q[1] == r and q[-1] == i:
                                 owner = [c for c in [r] + fam[r] if any(cn[0] in ("U", "SI") and cn[1] == q[2] for cn in sch.stores[c]["cons"])]
                                 left.append("%s (index of %s)" % (f, "/".join(owner) or r))
+                        # ... and no entity of any store still lists the id on the other side of a link collection (links are
+                        # facts of the parent part: they go with it, through whichever store the delete entered)
+                        psets = prev_view[4]
+                        if had_child and any(ms for (rr, ii, lf), ms in psets.items() if rr == r and ii == i and (rr, lf) in link_sets(sch, fam)):
+                            LINK_STATS["deletes_of_linked_child_entities"] += 1
+                            LINK_STATS["through_child" if is_child_store else "through_parent"] += 1
+                        for f in peer_mentions(sch, fam, a["facts"], r, i):
+                            left.append("%s (the other side of a link collection still lists the deleted id)" % f)
                         if left:
                             out.append(("C15:delete-left-parts", "after DeleteById of %s through %s (child stores of %s: %s; data of %s before): %s remain"
                                         % (i, s0, r, fam[r], [c for c in fam[r] if (r, i, c) in pchild] or "none", left[:4]), k))
@@ -660,11 +824,19 @@ def main(argv):
         "with one another (parent: all entities; plain child: entities with child data; extended child: loading variants all parent entities, "
         "bucket-level variants those with extension data), the entities the loading variants hand out are equal, GetRelatedEntitiesIdList / "
         "GetRelatedEntitiesCursor / IsEntityRelated show the stored string lists through the parent; after a DeleteById through ANY store of the family "
-        "no entity / child data / field / set fact and no unique- or set-index entry of the parent's or ANY child store's index names the id. Non-trivial: mixed population and a committed update/delete of an entity with child data.",
+        "no entity / child data / field / set fact and no unique- or set-index entry of the parent's or ANY child store's index names the id. "
+        "Seventh wave (store_c15w7.go): QueryWithCursorC through every store of a family over every cursor provider - IteratorMatchingAllOf / AnyOf of the "
+        "parent's set indexes, GetRelatedEntitiesCursor of link collections and fk back-reference sets, tree sets of ids (QC tokens, answered by the scan "
+        "loops of Store/PagingCursor.v over the candidate list): a plain child store returns / counts only candidates with child data, an extended one and "
+        "the parent every candidate; wirings C15lp / C15lx / C15lm whose PARENT declares link collections (to a peer store and to itself), links aimed at "
+        "entities with child data: both sides of those collections are compared with the machine, agree after every committed transaction "
+        "(C15:parent-links), and no peer lists an id after its DeleteById / DeleteWhere through any store of the family. Non-trivial: mixed population and a committed update/delete of an entity with child data.",
         nontrivial=nontrivial)
     c.cov["paged_queries"] = dict(QP_STATS)
     c.cov["delete_where"] = dict(DW_STATS)
     c.cov["lookups"] = dict(LK_STATS)
+    c.cov["cursor_queries"] = dict(QC_STATS)
+    c.cov["parent_links"] = dict(LINK_STATS)
     if not proof_ok:
         c.violation(PID + ":proof", "proof obligation no longer checks: %s" % json.dumps(c.proof_broken)[:600],
                     dict(broken=c.proof_broken), no_input=True)
